@@ -664,7 +664,19 @@ PickChecks ==
   IF Picked = {} \/ ~Simple \/ Cardinality(NewlyAssigned) # 1 THEN <<>>
   ELSE IF Undecidable THEN <<>>
   ELSE <<
-    <<PickTid \in AllowedAt(<<>>, PickLast, Post.queues[PickQ].limits, PickStick), "C04:worker-did-not-receive-the-prescribed-task">>
+    <<PickTid \in AllowedAt(<<>>, PickLast, Post.queues[PickQ].limits, PickStick), "C04:worker-did-not-receive-the-prescribed-task">>,
+    \* The stickiness window of level k keeps running while the worker keeps
+    \* serving its level-k invocation, and restarts when it switches.
+    <<LET t == TaskOf(Post, PickTid)
+          lims == Post.queues[PickQ].limits
+          path == OpOf(Post, t.ops[1]).inv
+          maxk == Min({Len(PickLast), Len(lims), Len(path)})
+          retained == Max({k \in 0 .. maxk : \A j \in 1 .. k : path[j] = PickLast[j]})
+          after == PostWorker(PickTid)[2].stick
+      IN Len(t.ops) = 1 =>
+           \A i \in 1 .. Len(lims) :
+             IF i <= retained THEN after[i] = PickStick[i] ELSE after[i] = Post.now,
+      "C04:stickiness-window-not-kept-or-not-restarted">>
   >>
 
 \* Direct hand-off of a new task to a worker that is blocked waiting.
